@@ -1,8 +1,220 @@
+import RichModel.Model.Pretty
+import RichModel.Gen.CellWidths
 import RichModel.Drv.Proto
-/- Driver handlers for property C16 (stub: filled in when the model is built). -/
-namespace RichModel.Drv.C16
-open RichModel RichModel.Proto
+/- Driver handlers for the pretty-printer model (property C16).
 
-def handlers : List (String × (List String → String)) := []
+Encodings (strings are space-separated decimal code points, so `; | # / , : ~` are free):
+* node   : prefix-order records `key;value;open;close;empty;last;tuple;isContainer;nchildren` joined by `|`
+* line   : `isRoot;text;suffix;whitespace;expanded#<node or ->`; a list of lines is joined by `/`
+* leaf   : `a~<repr>` | `s~<isBytes>~<chars>` | `x~<message>`
+* heap   : objects joined by `|`: `L;<leaf>` | `S;<kind>;<aux>;<ref,ref,…>` | `M;<kind>;<aux>;<leaf:ref,…>`
+* reprs  : the runtime `repr()` of the str/bytes values the model may need: `<isBytes>~<chars>~<repr>` joined by `|`
+-/
+namespace RichModel.Drv.C16
+open RichModel RichModel.Proto RichModel.Pretty
+
+def cw : Char → Nat := charWidthT Gen.cellWidths
+
+/-! nodes -/
+
+def encNodeRec (n : Node) : String :=
+  ";".intercalate [encStr n.keyRepr, encStr n.valueRepr, encStr n.openBrace, encStr n.closeBrace,
+    encStr n.empty, encBool n.last, encBool n.isTuple, encBool n.isContainer, toString n.children.length]
+
+partial def encNodeList (n : Node) : List String :=
+  encNodeRec n :: (n.children.map encNodeList).flatten
+
+def encNode (n : Node) : String := "|".intercalate (encNodeList n)
+
+mutual
+partial def parseNode : List String → Option (Node × List String)
+  | [] => none
+  | r :: rest =>
+    match r.splitOn ";" with
+    | [k, v, o, c, e, l, t, ic, n] =>
+      match parseNodes (decNat n) rest with
+      | some (kids, rest') =>
+        some (.mk (decStr k) (decStr v) (decStr o) (decStr c) (decStr e) (decBool l) (decBool t) (decBool ic) kids, rest')
+      | none => none
+    | _ => none
+partial def parseNodes : Nat → List String → Option (List Node × List String)
+  | 0, rest => some ([], rest)
+  | n + 1, rest =>
+    match parseNode rest with
+    | some (k, rest') =>
+      match parseNodes n rest' with
+      | some (ks, rest'') => some (k :: ks, rest'')
+      | none => none
+    | none => none
+end
+
+def decNode (s : String) : Option Node :=
+  match parseNode (s.splitOn "|") with
+  | some (n, []) => some n
+  | _ => none
+
+/-! lines -/
+
+def encLine (l : Line) : String :=
+  ";".intercalate [encBool l.isRoot, encStr l.text, encStr l.suffix, encStr l.whitespace, encBool l.expanded]
+    ++ "#" ++ (match l.node with | some n => encNode n | none => "-")
+
+def encLines (ls : List Line) : String := "/".intercalate (ls.map encLine)
+
+def decLine (s : String) : Option Line :=
+  match s.splitOn "#" with
+  | [f, nd] =>
+    match f.splitOn ";" with
+    | [r, t, sf, ws, ex] =>
+      let base : Line := { isRoot := decBool r, text := decStr t, suffix := decStr sf, whitespace := decStr ws, expanded := decBool ex }
+      if nd == "-" then some base
+      else match decNode nd with
+        | some n => some { base with node := some n }
+        | none => none
+    | _ => none
+  | _ => none
+
+/-! heaps -/
+
+def decLeaf (s : String) : Option Leaf :=
+  match s.splitOn "~" with
+  | ["a", r] => some (.atom (decStr r))
+  | ["x", m] => some (.broken (decStr m))
+  | ["s", b, cs] => some (.str (decBool b) (decStr cs))
+  | _ => none
+
+def decSeqKind : String → Option SeqKind
+  | "array" => some .array | "deque" => some .deque | "frozenset" => some .frozenset
+  | "list" => some .list | "set" => some .set | "tuple" => some .tuple | _ => none
+
+def decMapKind : String → Option MapKind
+  | "environ" => some .environ | "defaultdict" => some .defaultdict
+  | "counter" => some .counter | "dict" => some .dict | _ => none
+
+def splitList (s : String) (sep : String) : List String := if s.isEmpty then [] else s.splitOn sep
+
+def decObj (s : String) : Option HObj :=
+  match s.splitOn ";" with
+  | ["L", l] => (decLeaf l).map .leaf
+  | ["S", k, aux, items] =>
+    match decSeqKind k with
+    | some k => some (.seq k (decStr aux) ((splitList items ",").map decNat))
+    | none => none
+  | ["M", k, aux, items] =>
+    match decMapKind k with
+    | some k =>
+      (optList ((splitList items ",").map fun it =>
+        match it.splitOn ":" with
+        | [l, r] => (decLeaf l).map (·, decNat r)
+        | _ => none)).map (.map k (decStr aux))
+    | none => none
+  | _ => none
+
+def decHeap (s : String) : Option Heap := optList ((splitList s "|").map decObj)
+
+abbrev ReprTable := List (Bool × Str × Str)
+
+def decReprs (s : String) : Option ReprTable :=
+  optList ((splitList s "|").map fun e =>
+    match e.splitOn "~" with
+    | [b, cs, r] => some (decBool b, decStr cs, decStr r)
+    | _ => none)
+
+def lookup (t : ReprTable) (b : Bool) (cs : Str) : Option Str :=
+  (t.find? fun e => e.1 == b && e.2.1 == cs).map (·.2.2)
+
+def pyReprOf (t : ReprTable) (b : Bool) (cs : Str) : Str := (lookup t b cs).getD ['?', '?']
+
+/-- the `repr()` values `to_repr` will ask for on this leaf. -/
+def leafNeeds (ms : Option Nat) : Leaf → List (Bool × Str)
+  | .str b cs => match ms with
+    | some m => if cs.length > m then [(b, cs.take m)] else [(b, cs)]
+    | none => [(b, cs)]
+  | _ => []
+
+def heapNeeds (ms : Option Nat) (h : Heap) : List (Bool × Str) :=
+  (h.map fun o => match o with
+    | .leaf l => leafNeeds ms l
+    | .seq .. => []
+    | .map _ _ items => (items.map fun kr => leafNeeds ms kr.1).flatten).flatten
+
+def covered (t : ReprTable) (ms : Option Nat) (h : Heap) : Bool :=
+  (heapNeeds ms h).all fun (b, cs) => (lookup t b cs).isSome
+
+def okRefs (h : Heap) : Bool :=
+  h.all fun o => match o with
+    | .leaf _ => true
+    | .seq _ _ items => items.all (· < h.length)
+    | .map _ _ items => items.all (·.2 < h.length)
+
+def withHeap (ds al heap root ml ms reprs : String) (k : TravCfg → Heap → Nat → String) : String :=
+  match decHeap heap, decReprs reprs with
+  | some h, some t =>
+    let msO := decOptNat ms
+    if ml != "-" && ml.toNat?.isNone then "unmodelled"      -- negative max_length: islice raises
+    else if ms != "-" && ms.toNat?.isNone then "unmodelled"
+    else if !(covered t msO h) || !(okRefs h) || decNat root ≥ h.length then "unmodelled"
+    else k { pyRepr := pyReprOf t, variant := ⟨decBool ds, decBool al⟩, maxLength := decOptNat ml, maxString := msO } h (decNat root)
+  | _, _ => "bad-args"
+
+def isNat (s : String) : Bool := s.toNat?.isSome
+
+def handlers : List (String × (List String → String)) := [
+  ("pretty.tokens", fun a => match a with
+    | [n] => match decNode n with
+      | some n => encStrList n.tokens
+      | none => "bad-args"
+    | _ => "bad-args"),
+  ("pretty.str", fun a => match a with
+    | [n] => match decNode n with
+      | some n => encStr n.str
+      | none => "bad-args"
+    | _ => "bad-args"),
+  ("pretty.check_length", fun a => match a with
+    | [n, start, mx] => match decNode n with
+      | some n => if isNat start && isNat mx then encBool (n.checkLength cw (decNat start) (decNat mx)) else "unmodelled"
+      | none => "bad-args"
+    | _ => "bad-args"),
+  ("pretty.line", fun a => match a with     -- expandable ; check_length(max) ; str
+    | [l, mx] => match decLine l with
+      | some l =>
+        if !isNat mx then "unmodelled" else
+        encBool l.expandable ++ ";" ++
+          (match l.node with | some n => encBool (l.checkLength cw n (decNat mx)) | none => "err:AssertionError")
+          ++ ";" ++ encStr l.str
+      | none => "bad-args"
+    | _ => "bad-args"),
+  ("pretty.expand", fun a => match a with
+    | [ds, l, ind] => match decLine l with
+      | some l =>
+        if !isNat ind then "unmodelled" else
+        match l.node with
+        | some n => if n.isContainer && !n.children.isEmpty then encLines (l.expand ⟨decBool ds, true⟩ n (decNat ind)) else "err:AssertionError"
+        | none => "err:AssertionError"
+      | none => "bad-args"
+    | _ => "bad-args"),
+  ("pretty.render", fun a => match a with
+    | [ds, n, w, ind, ea] => match decNode n with
+      | some n =>
+        if !isNat w || !isNat ind then "unmodelled"
+        else encStr (render cw ⟨decBool ds, true⟩ n (decNat w) (decNat ind) (decBool ea))
+      | none => "bad-args"
+    | _ => "bad-args"),
+  ("pretty.traverse", fun a => match a with
+    | [al, heap, root, ml, ms, reprs] =>
+      withHeap "1" al heap root ml ms reprs fun cfg h r =>
+        match traverse cfg h r with
+        | some n => encNode n
+        | none => "none"
+    | _ => "bad-args"),
+  ("pretty.pretty_repr", fun a => match a with
+    | [ds, al, heap, root, ml, ms, reprs, w, ind, ea] =>
+      if !isNat w || !isNat ind then "unmodelled" else
+      withHeap ds al heap root ml ms reprs fun cfg h r =>
+        match prettyRepr cw cfg h r (decNat w) (decNat ind) (decBool ea) with
+        | some s => encStr s
+        | none => "none"
+    | _ => "bad-args")
+]
 
 end RichModel.Drv.C16
